@@ -312,8 +312,8 @@ namespace occa {
       case primitiveType::uint32_ : return primitive(!p.value.uint32_);
       case primitiveType::int64_  : return primitive(!p.value.int64_);
       case primitiveType::uint64_ : return primitive(!p.value.uint64_);
-      case primitiveType::float_  : OCCA_FORCE_ERROR("Cannot apply operator ! to float type");   break;
-      case primitiveType::double_ : OCCA_FORCE_ERROR("Cannot apply operator ! to double type");   break;
+      case primitiveType::float_  : return primitive(!p.value.float_);
+      case primitiveType::double_ : return primitive(!p.value.double_);
       default: ;
     }
     return primitive();
@@ -589,8 +589,8 @@ namespace occa {
       case primitiveType::uint32_ : return primitive(a.to<uint32_t>() && b.to<uint32_t>());
       case primitiveType::int64_  : return primitive(a.to<int64_t>()  && b.to<int64_t>());
       case primitiveType::uint64_ : return primitive(a.to<uint64_t>() && b.to<uint64_t>());
-      case primitiveType::float_  : OCCA_FORCE_ERROR("Cannot apply operator && to float type");   break;
-      case primitiveType::double_ : OCCA_FORCE_ERROR("Cannot apply operator && to double type");   break;
+      case primitiveType::float_  : return primitive(a.to<float>()    && b.to<float>());
+      case primitiveType::double_ : return primitive(a.to<double>()   && b.to<double>());
       default: ;
     }
     return primitive();
@@ -608,8 +608,8 @@ namespace occa {
       case primitiveType::uint32_ : return primitive(a.to<uint32_t>() || b.to<uint32_t>());
       case primitiveType::int64_  : return primitive(a.to<int64_t>()  || b.to<int64_t>());
       case primitiveType::uint64_ : return primitive(a.to<uint64_t>() || b.to<uint64_t>());
-      case primitiveType::float_  : OCCA_FORCE_ERROR("Cannot apply operator || to float type");   break;
-      case primitiveType::double_ : OCCA_FORCE_ERROR("Cannot apply operator || to double type");   break;
+      case primitiveType::float_  : return primitive(a.to<float>()    || b.to<float>());
+      case primitiveType::double_ : return primitive(a.to<double>()   || b.to<double>());
       default: ;
     }
     return primitive();
